@@ -2,7 +2,7 @@
    This file contains only the property theorems; each is closed by an exact lemma. *)
 From Coq Require Import String ZArith List Bool.
 From PB Require Import C01.Wrapper C16.SigTable C16.Bind C16.BindProofs C16.Model C16.Proofs
-  C16.PerPoint C16.PerPointProofs C16.InnerProofs gen.GenSigs C16.TableProofs.
+  C16.PerPoint C16.PerPointProofs C16.InnerProofs C16.MethodCase C16.MethodCaseProofs gen.GenSigs C16.TableProofs.
 Import ListNotations.
 Open Scope Z_scope.
 
@@ -254,6 +254,38 @@ Theorem C16_full_path : forall (V : Type) (yof : option V -> V) e, In e sigs ->
       /\ b_extra mb' = b_extra b.
 Proof. exact @table_full_path. Qed.
 Print Assumptions C16_full_path.
+
+(* ---- method NAME arguments of the optimizers (collab_pls, optimize_extended_range, adaptive_minmax, custom_bc,
+   individual_axes, _get_function) ---- *)
+
+(* a comparison / membership test / getattr whose operand is the LOWER-CASED name (data flow from method.lower())
+   and whose literals are lower case cannot tell two spellings with the same lower-casing apart, and behaves as for
+   the lower-case spelling *)
+Theorem C16_method_name_use : forall c s t,
+  use_ok c = true ->
+  (lower s = lower t -> eval_use c s = eval_use c t /\ attr_use c s = attr_use c t)
+  /\ eval_use c s = eval_use c (lower s) /\ attr_use c s = attr_use c (lower s).
+Proof.
+  intros c s t H. split; [exact (use_case_insensitive c s t H)|exact (use_as_lower c s H)].
+Qed.
+Print Assumptions C16_method_name_use.
+
+(* every such use translated from the optimizer bodies of the current source passes the check *)
+Theorem C16_method_name_table : method_uses_ok method_funcs method_uses = true.
+Proof. exact method_uses_checked. Qed.
+Print Assumptions C16_method_name_table.
+
+Theorem C16_method_name_table_sound : forall c, In c method_uses ->
+  forall s t, lower s = lower t -> eval_use c s = eval_use c t /\ attr_use c s = attr_use c t.
+Proof. exact table_method_case. Qed.
+Print Assumptions C16_method_name_table_sound.
+
+(* why the raw string must not be compared: 'FABC' and 'fabc' are told apart *)
+Theorem C16_method_name_raw_refuted :
+  let c := {| mc_two_d := false; mc_func := "collab_pls"%string; mc_use := CmpRaw; mc_lits := ["fabc"%string] |} in
+  use_ok c = false /\ eval_use c "FABC" <> eval_use c "fabc" /\ lower "FABC" = lower "fabc".
+Proof. exact raw_compare_refuted. Qed.
+Print Assumptions C16_method_name_raw_refuted.
 
 (* ---- hypotheses are satisfiable ---- *)
 Open Scope string_scope.
